@@ -38,7 +38,17 @@ def install_rdms(E):
             bound = E.bind_args(fv.node, list(args), dict(kw), self_val=self, module=fv.module)
             params = list(bound)
             modes = {k: 'set' for k, p in enumerate(params) if p == 'value'} if setmode else None
-            return E.app(f'RDMs.{name}', [bound[p] for p in params], 'obj', cls='RDMs', modes=modes)
+            out = E.app(f'RDMs.{name}', [bound[p] for p in params], 'obj', cls='RDMs', modes=modes)
+            # callee contract used at call sites: the untouched side of the selection is the source's
+            # (subsample / subset: discharged in C09 / C10 `...-are-the-sources`; *_pattern: bounded tier of C10)
+            keep = ('pattern_descriptors', 'n_cond') if name in ('subset', 'subsample') else ('rdm_descriptors', 'n_rdm')
+            for f in keep + ('descriptors', 'dissimilarity_measure'):
+                try:
+                    out.fields[f] = E.getattr(self, f)
+                except Undecided:
+                    pass
+            E.used_contracts.add(f'RDMs.{name}: the other factor\'s descriptors, descriptors and measure are the source\'s')
+            return out
         return m
     for nm, sm in (('subset_pattern', True), ('subset', True), ('subsample_pattern', False), ('subsample', False)):
         E.methods[('RDMs', nm)] = rd_method(nm, sm)
